@@ -1,1 +1,32 @@
-(* below *)
+(* C06 - tmpw is the inverse-variance weighted mean of tmpf and tmpb; bounds are ordered.  Statements only. *)
+From Coq Require Import QArith.
+Require Import DTS.Proofs.WMeanP.
+Local Open Scope Q_scope.
+
+(* T22: tmpw is a convex combination of tmpf and tmpb, hence lies between them; the -273.15 shift commutes *)
+Theorem C06_tmpw_is_convex_combination Tf Tb vf vb : 0 < vf -> 0 < vb ->
+  tmpw Tf Tb vf vb == (vb / (vf + vb)) * Tf + (vf / (vf + vb)) * Tb.
+Proof. exact (tmpw_convex Tf Tb vf vb). Qed.
+Theorem C06_tmpw_between Tf Tb vf vb : 0 < vf -> 0 < vb ->
+  (Tf <= Tb -> Tf <= tmpw Tf Tb vf vb <= Tb) /\ (Tb <= Tf -> Tb <= tmpw Tf Tb vf vb <= Tf).
+Proof. intros Hf Hb. split; [exact (tmpw_between Tf Tb vf vb Hf Hb)|exact (tmpw_between' Tf Tb vf vb Hf Hb)]. Qed.
+Theorem C06_celsius_shift_commutes Tf Tb vf vb c : 0 < vf -> 0 < vb ->
+  tmpw Tf Tb vf vb - c == tmpw (Tf - c) (Tb - c) vf vb.
+Proof. exact (shift_commutes Tf Tb vf vb c). Qed.
+(* T23: tmpw_var_approx = 1/(1/vf + 1/vb) is positive and at most min(vf, vb) *)
+Theorem C06_approx_le_min vf vb : 0 < vf -> 0 < vb -> 0 < approx vf vb /\ approx vf vb <= vf /\ approx vf vb <= vb.
+Proof. intros Hf Hb. split; [exact (approx_pos vf vb Hf Hb)|exact (approx_le_min vf vb Hf Hb)]. Qed.
+(* T24: tmpw_var_lower <= tmpw_var whenever the parameter part of tmpw_var is a non-negative quadratic form (C05 shows it
+   is J' Cov J; it is non-negative for a positive semi-definite p_cov) and the weights sum to one *)
+Theorem C06_lower_le_var a b wf wb q : 0 < a -> 0 < b -> wf + wb == 1 -> 0 <= q ->
+  approx a b <= wf * wf * a + wb * wb * b + q.
+Proof. exact (lower_le_var a b wf wb q). Qed.
+(* T25: positivity *)
+Theorem C06_variance_positive inten q : 0 < inten -> 0 <= q -> 0 < inten + q.
+Proof. exact (var_positive inten q). Qed.
+
+Example C06_ex : tmpw 10 20 1 3 == 25 # 2 /\ approx 1 3 == 3 # 4.
+Proof. split; vm_compute; reflexivity. Qed.
+
+Print Assumptions C06_tmpw_is_convex_combination. Print Assumptions C06_tmpw_between. Print Assumptions C06_celsius_shift_commutes.
+Print Assumptions C06_approx_le_min. Print Assumptions C06_lower_le_var. Print Assumptions C06_variance_positive.
